@@ -91,7 +91,8 @@ Qed.
 (* domain of the n-n law: every compared pair of key cells is well formed and of compatible kinds *)
 Definition nn_domain (left right : table) (c1 c2 : list nat) : Prop :=
   forall r r' x y, In r left -> In r' right -> In (x, y) (combine c1 c2) ->
-    wf_cell (key r x) /\ wf_cell (key r' y) /\ compat (key r x) (key r' y) = true.
+    wf_cell (key r x) /\ wf_cell (key r' y) /\ compat (key r x) (key r' y) = true /\
+    conv_ok (key r x) (key r' y) = true.
 
 Lemma in_combine_map : forall (A B C D : Type) (f : A -> C) (g : B -> D) l1 l2 p,
   In p (combine (map f l1) (map g l2)) -> exists x y, In (x, y) (combine l1 l2) /\ p = (f x, g y).
